@@ -21,8 +21,9 @@ PROPS = {
         "rule": "One case = seeded configuration (1-2 partitions, lazy shard loading on/off, check interval, phase of the service ticker relative to the full hour: "
                 "a run exactly at / 1 ns before / 1 ns after end+duration, or arbitrary; 1-2 policies with duration 0 / equal / longer than the shard group duration) "
                 "+ a seeded history of writes (timestamps around now-duration, now, inside the window, near future), UpdateRetentionPolicy (raise / lower / unlimited / "
-                "shorter than the group duration / group durations), reads, clean and crash restarts with down times up to 50 h, and process kills between catalogue mark, "
-                "engine delete and catalogue prune; the clock only moves by jumps to the next operation or service run. After every service run and every operation each "
+                "shorter than the group duration / group durations), reads, writes kept in flight inside a shard across a service run, clean and crash restarts with down times up to 50 h, process kills between "
+                "catalogue mark, engine delete and catalogue prune, a second data node joining (with and without expand-shards-enable); three generator flavours "
+                "(generic / group durations altered under data / node join); the clock only moves by jumps to the next operation or service run. After every service run and every operation each "
                 "shard known to the model is judged: not expired => intact in engine and catalogue and (if open, or on reads) its rows equal the model; expired at two "
                 "consecutive quiet runs => gone from engine and catalogue. Non-trivial = at least one shard with rows was removed by the service and at least one unexpired "
                 "shard with rows was read back after a service run; distinct = digest of the case; states = distinct (policy class, boundary class, shard state, "
@@ -31,11 +32,13 @@ PROPS = {
         "probes": ["service run exactly at end+duration", "service run one nanosecond after end+duration", "service run one nanosecond before end+duration",
                    "expired shard was not loaded (lazy) when the service ran", "expired shard was unknown to the engine when the service ran",
                    "duration raised after expiry under the old duration, before the service ran", "duration lowered: shard expired under the new duration only",
-                   "process killed between catalogue mark and prune", "alter to a duration shorter than the shard group duration rejected"],
+                   "process killed between catalogue mark and prune", "alter to a duration shorter than the shard group duration rejected",
+                   "service ran while a write into a live shard was in flight", "service ran while a write into an expiring shard was in flight",
+                   "expired shard was open when the service ran"],
         "assumptions": ["one store node; the catalogue is a single un-replicated meta.Data", "no file-system faults (crash images are copies of the directory at quiescent points)",
                         "the coordinator's up-front rejection of too-old points is re-implemented (second granularity, as fasttime), not executed",
                         "virtual time spans hours (open shards own a 100 ms ticker); longer spans only while the store is down"],
-        "quick": {"runs": 1200, "budget_s": 120, "workers": 14},
-        "thorough": {"runs": 14000, "budget_s": 1200, "workers": 16},
+        "quick": {"runs": 600, "budget_s": 130, "workers": 14},
+        "thorough": {"runs": 7000, "budget_s": 1250, "workers": 16},
     },
 }
